@@ -184,9 +184,9 @@ def writeBytes (c : Chunk) (b : Bytes) : Chunk × Option Err :=
 /-- positional writes `WriteUintNPos(p, v)`: `b` is the big-endian image -/
 def writePos (c : Chunk) (p : Int) (b : Bytes) : Chunk × Option Err :=
   let k : Int := (b.length : Int) - 1
-  if p ≥ c.len ∨ p + k ≥ c.len then (c, some .eof)
+  if p < 0 then (c, some .invalidIndex)        -- `if p < 0 { return ErrInvalidIndex }` (was: an index panic)
+  else if p ≥ c.len ∨ p + k ≥ c.len then (c, some .eof)
   else if c.limit > 0 ∧ (p ≥ c.limit ∨ p + k ≥ c.limit) then (c, some .limit)
-  else if p < 0 then (c, some .invalidIndex)   -- Go: index out of range panic (reported as `panic`)
   else (poke c p.toNat b, none)
 
 /-- `Bytes()` on the unread bytes `u`: result and number of bytes consumed (the cursor moves even
